@@ -320,3 +320,28 @@ def h8(ctx):
 
 
 RULES.append(h8)
+
+
+@rule("H9", doc="a shape is renamed with caller-chosen slot names only after its private (bound) slots were refreshed")
+def h9(ctx):
+    crate = ctx.lib()
+    n = 0
+    for b in crate.fns():
+        tup = [b.var_names.get(l) for l in range(1, b.argc + 1) if b.local_ty(l).replace("&", "").strip() in ("(L, slotmap::SlotMap)",)]
+        if not tup:
+            continue
+        for c in b.calls:
+            if not (c.callee and c.callee.name == "apply_slotmap" and len(c.args) == 2) or b.blocks[c.bb]["cleanup"]:
+                continue
+            recv, m = b.role_of_operand(c.args[0]), strip_role(b.role_of_operand(c.args[1]))
+            for p in tup:
+                if m == ("field", ("param", p), "1") and role_mentions_param(recv, p):
+                    n += 1
+                    ok = role_mentions_call(recv, "refresh_private") or role_mentions_call(recv, "refresh_internals")
+                    ctx.check(ok, "refresh-before-rename:" + C.fkey(b), "%s refreshes the shape's private slots before renaming it with the caller's map" % C.short(b.id),
+                              "%s renames the shape %s.0 with the caller's map %s.1 without refreshing its private slots first: a binder of the shape is numbered $0, $1, .. and the caller's names may be exactly those — the bound slot captures a free one (`lam $1. app $1 $1` for a term that applies a free $1)" % (C.short(b.id), p, p),
+                              where_of(b, c.bb))
+    ctx.floor("shape renamings with a caller-provided map", n, 1)
+
+
+RULES.append(h9)
